@@ -24,4 +24,7 @@ def run(tier, seed, replay=None):
             cases.clear()
     return CC.run('C08', tier, seed, replay, PROPS, judge, extra_streams=extra, extra_units=['Pedantic'],
                   rule_extra='; zoo: every public name of typing / collections.abc, bare and subscripted, non-types, strings, TypeVars, '
-                             'NamedTuple/TypedDict/Protocol ... x 78 values (namedtuples, objects with raising _asdict, generators, classes, modules)')
+                             'NamedTuple/TypedDict/Protocol ... x 78 values (namedtuples, objects with raising _asdict, generators, classes, modules); wrapper-corner '
+                             'table incl. the generator protocol of @pedantic generator functions (next / send / close / throw in its one-, two- and '
+                             'three-argument forms, directly and through yield from, bodies that handle the thrown exception; reference = the '
+                             'same source without the decorators)')
